@@ -1721,7 +1721,8 @@ class Lowering:
             if re.fullmatch(pat, self.strip_cvref(t)) and self.typemap_is_record(pat):
                 # a class modelled by a C struct: default construction is the model's default; copies/moves
                 # from temporaries are struct copies
-                if len(args) == 0:
+                if len([a for a in args if a.get('kind') != 'CXXDefaultArgExpr']) == 0:
+                    # no explicit argument (all defaulted): the model's default value
                     return self.cfg.get('record_default', {}).get(ct, '(%s){0}' % ct)
                 if len(args) == 1 and (self.is_temporary(args[0]) or '&&' in ctor_t):
                     return self.expr(args[0], ctx)      # move (incl. `return local;`): the model's struct copy
